@@ -79,6 +79,16 @@ Proof.
   destruct (Consts.resume_step_guard && _); [discriminate|].
   destruct (_ <? 0)%Z; [discriminate|]. destruct (_ <=? _)%Z; discriminate.
 Qed.
+(* ... nor does any run of HASH records *)
+Lemma recv_hashes_no_over dst : forall hs st st', (forall m, In m hs -> m <> Over) -> recv_hashes B H dst hs st <> ROver st'.
+Proof.
+  induction hs as [|m hs IH]; intros st st' Hall; [discriminate|]. cbn [recv_hashes].
+  destruct m as [hstep h|]; [|exfalso; apply (Hall Over); [left; reflexivity | reflexivity]].
+  assert (Hall' : forall m, In m hs -> m <> Over) by (intros m Hm; apply Hall; right; exact Hm).
+  destruct (negb (r_match st)); [apply IH, Hall'|].
+  destruct (Consts.resume_step_guard && _); [discriminate|].
+  destruct (_ <? 0)%Z; [discriminate|]. destruct (_ <=? _)%Z; [apply IH, Hall' | discriminate].
+Qed.
 End Recv.
 
 (* ---------- one file, both ends ---------- *)
